@@ -456,6 +456,14 @@ impl Check for C14 {
     fn nondeterministic(&self) -> bool {
         true
     }
+    fn fixed_case_timeout_s(&self) -> u64 {
+        // churn: ~5 s, under ThreadSanitizer ~1 min
+        300
+    }
+    fn trace_pass_fixed(&self) -> bool {
+        // lock usage inside log arguments only shows with trace logging on
+        true
+    }
     fn fail_fast_fixed(&self) -> bool {
         // after a deadlock inside the cache every further build of the process may hang: the failing
         // fixed case is reported at once instead of being shrunk
